@@ -262,6 +262,25 @@ func runC15(x *core.Ctx) {
 					func() *core.Finding { return c15InSitu(bb) })
 			}
 		}
+		if f == nil && len(b) > 0 {
+			few := len(b) <= 3
+			if !few {
+				few = true
+				for _, c := range b[:3] {
+					if c != 0x80 && c != 0x81 && c != 0xff {
+						few = false
+					}
+				}
+			}
+			if _, _, wok := refDecode(b); !wok && few {
+				// what the reference rejects, as the property length of real frames
+				if g := c15InSituProp(b); g != nil {
+					bb := append([]byte{}, b...)
+					x.Report(g, func() core.Case { return core.Case{Harness: "c15.insitu.proplen", Frame: hexOf(bb)} },
+						func() *core.Finding { return c15InSituProp(bb) })
+				}
+			}
+		}
 		if f != nil {
 			bb := append([]byte{}, b...)
 			x.Report(f, func() core.Case { return core.Case{Harness: "c15.string", Frame: hexOf(bb)} },
@@ -609,6 +628,29 @@ func c15Kinds(b []byte, tail []byte, kind env.Kind, k int) *core.Finding {
 // reject what the reference rejects and, for minimal encodings, accept and
 // consume exactly the frame (a decoder may read the length field with code
 // of its own rather than with the hooked decoder).
+// c15InSituProp: a byte string the reference decoder rejects (it ends on a
+// continuation byte or goes beyond four bytes) in the place of the property
+// length of a DISCONNECT, a PUBACK and a PUBLISH: the in-memory decoder as
+// the packet decoders drive it must reject the frame.
+func c15InSituProp(b []byte) *core.Finding {
+	for _, fr := range [][]byte{
+		reframe(0xe0, append([]byte{0x00}, b...)),
+		reframe(0x40, append([]byte{0x00, 0x01, 0x10}, b...)),
+		reframe(0x30, append([]byte{0x00, 0x01, 't'}, b...)),
+		reframe(0x20, append([]byte{0x00, 0x00}, b...)),
+	} {
+		p, err, res := readPacket(bytes.NewReader(fr), stepBudget(len(fr)))
+		if res.Panic != "" {
+			return &core.Finding{Class: "in-situ-property-length/panic", Detail: fmt.Sprintf("property length % x in frame % x: %s", b, fr, res.Panic)}
+		}
+		if err == nil || p != nil {
+			return &core.Finding{Class: "in-situ-property-length/accepted", Sig: map[string]string{"type": bind.TypeNames[fr[0]>>4]},
+				Detail: fmt.Sprintf("the variable byte integer % x (which the reference decoder rejects) as the property length of the frame % x: ReadPacket returns a packet", b, fr)}
+		}
+	}
+	return nil
+}
+
 func c15InSitu(b []byte) *core.Finding {
 	wv, wn, wok := refDecode(b)
 	if wok && wv > 70000 {
@@ -807,6 +849,8 @@ func replayC15(c core.Case) *core.Finding {
 			l = append(l, first+uint32(i))
 		}
 		return c15Publish(l)
+	case "c15.insitu.proplen":
+		return c15InSituProp(unhex(c.Frame))
 	case "c15.insitu":
 		return c15InSitu(unhex(c.Frame))
 	case "c15.kinds":
